@@ -710,6 +710,25 @@ func (fr *Frame) havocPtrArgs(c *ssa.CallCommon, args []Val, st *State) {
 			}
 		}
 	}
+	// a callee without contract may write through any pointer-to-struct it is handed
+	// (directly or boxed in an interface, e.g. json.Decode(&v)): forget that struct type's fields
+	if c == nil || vc.eng.isPureName(c) {
+		return
+	}
+	if callee := c.StaticCallee(); callee == nil || vc.eng.inModule(callee) {
+		return // in-module callees are covered by the static mod-set analysis
+	}
+	for _, av := range c.Args {
+		t := av.Type()
+		if mi, ok := av.(*ssa.MakeInterface); ok {
+			t = mi.X.Type()
+		}
+		if pt, ok := types.Unalias(t).Underlying().(*types.Pointer); ok {
+			if structOf(pt.Elem()) != nil && vc.eng.moduleType(pt.Elem()) {
+				fr.havocType(st, pt.Elem())
+			}
+		}
+	}
 }
 
 func (fr *Frame) havocClosureArgs(args []Val, st *State) {
